@@ -1011,7 +1011,7 @@ def sym_runtime_shapes(np, sa, sb, limit=3, pick=None):
     operands, anonymous dims independent, unknown rank = any rank <= 2) and that numpy broadcasts."""
     import itertools
 
-    consts = sorted({d for s_ in (sa, sb) if s_ is not None for d in s_ if isinstance(d, int)} | {1, 2, 3})
+    consts = sorted({d for s_ in (sa, sb) if s_ is not None for d in s_ if isinstance(d, int)} | {0, 1, 2, 3})
     names = sorted({d for s_ in (sa, sb) if s_ is not None for d in s_ if isinstance(d, str)})
     free = [(k, i) for k, s_ in enumerate((sa, sb)) if s_ is not None for i, d in enumerate(s_) if d is None]
     unk = [k for k, s_ in enumerate((sa, sb)) if s_ is None]
@@ -1039,10 +1039,16 @@ def sym_runtime_shapes(np, sa, sb, limit=3, pick=None):
         return []
     # prefer variety: a pair where the operands differ in some axis (one side 1), and one where they agree
     out.sort(key=lambda c: (c[0] == c[1], -sum(c[0]) - sum(c[1])))
-    if pick is not None and len(out) > limit:
-        rest = out[1:-1]
-        return [out[0], out[-1]] + [rest[pick % len(rest)]] if rest else [out[0], out[-1]]
-    return out[:limit]
+    zero = [c for c in out if 0 in c[0] or 0 in c[1]]  # a zero-length axis at run time
+    nz = [c for c in out if c not in zero] or out
+    if pick is not None and len(nz) > limit:
+        rest = nz[1:-1]
+        chosen = [nz[0], nz[-1]] + ([rest[pick % len(rest)]] if rest else [])
+    else:
+        chosen = nz[:limit]
+    if zero and pick is not None:
+        chosen.append(zero[pick % len(zero)])
+    return chosen
 
 
 def symbolic_case(env: Env, c):
